@@ -247,6 +247,18 @@ RoaDel(c, r) ==
     /\ UNCHANGED <<pubknown, pst, rst, kst, exists, gone, parent, ent, cstate, iss, sus, rc, rcv, req,
                    pub>>
 
+\* ca_routes_update with several added and removed authorisations at once
+\* (all or nothing).
+RoaDelta(c, A, D) ==
+    /\ exists[c] /\ A \cup D # {}
+    /\ A \cap routes[c] = {} /\ D \subseteq routes[c]
+    /\ \A r \in A : Prefix(r) \in Holdings(c)
+    /\ routes' = [routes EXCEPT ![c] = (@ \ D) \cup A]
+    /\ tasks' = IF A # {} \/ \E d \in D : Prefix(d) \in Holdings(c)
+                THEN tasks \cup {SR(c)} ELSE tasks
+    /\ UNCHANGED <<pubknown, pst, rst, kst, exists, gone, parent, ent, cstate, iss, sus, rc, rcv, req,
+                   pub>>
+
 \* ca_keyroll_init (max age 0): keys.rs / certauth.rs process_keyroll_initiate
 RollInit(c) ==
     /\ exists[c] /\ rc[c] = "active" /\ c # Top
@@ -590,6 +602,11 @@ Republish(due) ==
                        ELSE tasks
     /\ UNCHANGED <<pubknown, pst, rst, kst, exists, gone, parent, ent, cstate, iss, sus, rc, rcv, req,
                    routes, pub>>
+\* ... for the CAs in S (those with a key set within the margin)
+RepublishFor(S) ==
+    /\ tasks' = tasks \cup {SR(c) : c \in {d \in S : HasKeys(d)}}
+    /\ UNCHANGED <<pubknown, pst, rst, kst, exists, gone, parent, ent, cstate, iss, sus, rc, rcv, req,
+                   routes, pub>>
 Renew(due) ==
     /\ tasks' = IF due
                 THEN tasks \cup {SR(c) : c \in {d \in AllCA : HasKeys(d) /\ VrpsFor(d, rcv[d]["cur"]) # {}}}
@@ -623,6 +640,7 @@ ApiNext ==
     \/ "suspend" \in Ops /\ \E c \in Sub : ChildSuspend(c) \/ ChildUnsuspend(c)
     \/ "remove" \in Ops /\ \E c \in Sub : ChildRemove(c)
     \/ "roa" \in Ops /\ \E c \in AllCA, r \in Roa : RoaAdd(c, r) \/ RoaDel(c, r)
+    \/ "roadelta" \in Ops /\ \E c \in AllCA, A \in SUBSET Roa, D \in SUBSET Roa : RoaDelta(c, A, D)
     \/ "roll" \in Ops /\ \E c \in Sub : RollInit(c) \/ RollActivate(c)
     \/ "delete" \in Ops /\ \E c \in Sub : DeleteCa(c)
     \/ "refresh" \in Ops /\ RefreshAll
